@@ -226,3 +226,97 @@ def units(plan):
     ])
     mk("c02_classes", [(f, "C02.grammar.class.%s" % f, (lambda tr, f=f, v=v, ms=ms: class_fn(tr, text, f, v, ms)),
                         "operator class %s consists of exactly the tokens {%s} and tags them as FormulaOperator::%s" % (f, ", ".join(ms), v)) for f, v, ms in CLASSES])
+
+
+# ---------------------------------------------------------------------------------------------------------------------
+# mech_syntax::alt_best (src/syntax/src/lib.rs): the combinator `factor` uses to choose among the primaries
+ALT_BEST_MODEL = """
+#[derive(Clone, Copy, PartialEq, Eq, Structural)]
+pub struct ParseString { pub cursor: usize, pub id: u64 }
+impl ParseString { pub fn clone(&self) -> (r: ParseString) ensures r == *self, { *self } }
+#[derive(Clone, Copy, PartialEq, Eq, Structural)]
+pub struct Val { pub id: u64 }
+#[derive(Clone, Copy, PartialEq, Eq, Structural)]
+pub struct ParseError { pub remaining_input: ParseString, pub id: u64 }
+#[derive(Clone, Copy, PartialEq, Eq, Structural)]
+pub enum NomErr { Failure(ParseError), Error(ParseError), Incomplete(u64) }
+#[derive(Clone, Copy, PartialEq, Eq, Structural)]
+pub struct Name { pub id: u64 }
+#[derive(Clone, Copy)]
+pub struct Parser { pub id: u64 }
+pub uninterp spec fn mech_code_name() -> Name;
+pub uninterp spec fn runp(p: u64, i: ParseString) -> Result<(ParseString, Val), NomErr>;      // an alternative applied to the input: arbitrary
+#[verifier::external_body]
+pub fn run(p: &Parser, i: ParseString) -> (r: Result<(ParseString, Val), NomErr>) ensures r == runp(p.id, i), { unimplemented!() }
+#[verifier::external_body]
+pub fn is_mech_code(n: &Name) -> (b: bool) ensures b == (*n == mech_code_name()), { unimplemented!() }     // `*name == "mech_code"`
+#[verifier::external_body]
+pub fn new_error(i: ParseString) -> (e: ParseError) { unimplemented!() }
+// the table holds no alternative called "mech_code" (that name short-circuits) and no alternative answers Incomplete (complete-input parsers)
+pub open spec fn plain(parsers: Seq<(Name, Parser)>, input: ParseString) -> bool {
+  forall|k: int| 0 <= k < parsers.len() ==> (#[trigger] parsers[k]).0 != mech_code_name() && !(runp(parsers[k].1.id, input) matches Err(NomErr::Incomplete(_)))
+}
+pub open spec fn succ_at(parsers: Seq<(Name, Parser)>, input: ParseString, k: int, i2: ParseString, v: Val) -> bool {
+  0 <= k < parsers.len() && runp(parsers[k].1.id, input) == Ok::<(ParseString, Val), NomErr>((i2, v))
+}
+pub open spec fn is_result_of_some(parsers: Seq<(Name, Parser)>, input: ParseString, i2: ParseString, v: Val) -> bool { exists|k: int| succ_at(parsers, input, k, i2, v) }
+pub open spec fn none_goes_further(parsers: Seq<(Name, Parser)>, input: ParseString, c: usize) -> bool { forall|j: int, ij: ParseString, vj: Val| succ_at(parsers, input, j, ij, vj) ==> ij.cursor <= c }
+pub open spec fn some_succeeds(parsers: Seq<(Name, Parser)>, input: ParseString) -> bool { exists|k: int, i2: ParseString, v: Val| succ_at(parsers, input, k, i2, v) }
+"""
+ALT_BEST_SIG = """fn alt_best(input: ParseString, parsers: &Vec<(Name, Parser)>) -> (res: Result<(ParseString, Val), NomErr>)
+  requires plain(parsers@, input),
+  ensures
+    // a success is the result of one of the alternatives on this input, and no alternative succeeds further into the input (longest match)
+    (match res { Ok((i2, v)) => is_result_of_some(parsers@, input, i2, v) && none_goes_further(parsers@, input, i2.cursor), Err(_) => true }),
+    // when no alternative fails hard (nom Failure), one succeeding alternative is enough for success
+    (forall|j: int| 0 <= j < parsers@.len() ==> !(runp(#[trigger] parsers@[j].1.id, input) matches Err(NomErr::Failure(_)))) && some_succeeds(parsers@, input) ==> res is Ok,
+"""
+ALT_BEST_INV = """    invariant plain(parsers@, input),
+      best_success matches Some((bi, bv, bc, _n)) ==> bc == bi.cursor && bk < i_ && succ_at(parsers@, input, bk, bi, bv),
+      forall|j: int, ij: ParseString, vj: Val| j < i_ && succ_at(parsers@, input, j, ij, vj) ==> best_success is Some && ij.cursor <= best_success.unwrap().2,
+      best_failure matches Some((e, _c, _n)) ==> e is Failure && 0 <= fk < i_ && (runp(parsers@[fk].1.id, input) matches Err(NomErr::Failure(_))),
+      best_failure is None ==> forall|j: int| 0 <= j < i_ ==> !(runp(#[trigger] parsers@[j].1.id, input) matches Err(NomErr::Failure(_))),
+"""
+ALT_BEST_TAIL = """  proof {
+    if best_failure is Some { assert(runp(parsers@[fk].1.id, input) matches Err(NomErr::Failure(_))); }
+    if best_success is Some {
+      let b = best_success.unwrap();
+      assert(succ_at(parsers@, input, bk, b.0, b.1));
+      assert(is_result_of_some(parsers@, input, b.0, b.1));
+      assert(none_goes_further(parsers@, input, b.0.cursor));
+    } else {
+      assert(!some_succeeds(parsers@, input));
+    }
+  }
+"""
+
+
+def alt_best_fn(text):
+    """(X) `alt_best` (src/syntax/src/lib.rs), whole body: the table `&[(&'static str, Box<dyn Fn(..) -> ..>)]` -> `&Vec<(Name, Parser)>` (names and parsers are identities);
+    `for (name, parser) in parsers {` -> index loop; `parser(x)` -> `run(parser, x)`; `*name == "mech_code"` -> `is_mech_code(name)`; `nom::Err::` -> `NomErr::`;
+    `Err(e @ nom::Err::Incomplete(_)) => { return Err(e); }` -> `Err(NomErr::Incomplete(n)) => { return Err(NomErr::Incomplete(n)); }`; `ParseError::new(input, "..")` -> `new_error(input)`;
+    in the type annotations `O` -> `Val`, `&'static str` -> `Name`, `nom::Err<ParseError>` -> `NomErr`; a stored `name` -> `*name`.  Two ghost witnesses (index of the best
+    success / of a hard failure) are assigned next to `best_success = ..` / `best_failure = ..`."""
+    sig, body = extract_fn(text, "alt_best")
+    b = re.sub(r"//[^\n]*", "", body[body.index("{") + 1:body.rindex("}")]).replace("\r", "")
+    b = b.replace("Option<(ParseString, O, usize, &'static str)>", "Option<(ParseString, Val, usize, Name)>").replace("Option<(nom::Err<ParseError>, usize, &'static str)>", "Option<(NomErr, usize, Name)>")
+    b, n1 = re.subn(r"for\s+\(\s*name\s*,\s*parser\s*\)\s+in\s+parsers\s*\{", "let ghost mut bk: int = 0;\n  let ghost mut fk: int = 0;\n  for i_ in 0..parsers.len()\n" + ALT_BEST_INV + "  {\n    let name = &parsers[i_].0; let parser = &parsers[i_].1;", b)
+    b, n2 = re.subn(r"\bparser\(\s*input\.clone\(\)\s*\)", "run(parser, input.clone())", b)
+    b, n3 = re.subn(r"\*name\s*==\s*\"mech_code\"", "is_mech_code(name)", b)
+    b = re.sub(r"Err\(\s*e\s*@\s*nom::Err::Incomplete\(_\)\s*\)\s*=>\s*\{\s*return\s+Err\(e\);\s*\}", "Err(NomErr::Incomplete(n)) => { return Err(NomErr::Incomplete(n)); }", b)
+    b = b.replace("nom::Err::", "NomErr::")
+    b = re.sub(r"ParseError::new\(\s*input\s*,\s*\"[^\"]*\"\s*,?\s*\)", "new_error(input)", b)
+    b, n4 = re.subn(r"(best_success\s*=\s*Some\(\((?:[^()]|\([^()]*\))*?),\s*name\s*\)\)\s*;", r"\1, *name));\n          proof { bk = i_ as int; }", b)
+    b, n5 = re.subn(r"(best_failure\s*=\s*Some\(\((?:[^()]|\([^()]*\))*?),\s*name\s*\)\)\s*;", r"\1, *name));\n          proof { fk = i_ as int; }", b)
+    b = re.sub(r"(best_error\s*=\s*Some\(\((?:[^()]|\([^()]*\))*?),\s*name\s*\)\)\s*;", r"\1, *name));", b)
+    mt = re.search(r"if\s+let\s+Some\(\(\s*next_input\s*,\s*val\s*,\s*success_cursor\s*,\s*_\s*\)\)\s*=\s*best_success\s*\{", b)
+    if (n1, n2, n3, n4, n5) != (1, 1, 1, 1, 1) or not mt:
+        raise AnchorLost("alt_best: statements outside the transcription rules %r" % ((n1, n2, n3, n4, n5),))
+    b = b[:mt.start()] + ALT_BEST_TAIL + "  " + b[mt.start():]
+    if re.search(r"\b(nom::|ParseError::new|Box<dyn)\b", b):
+        raise AnchorLost("alt_best: statements outside the transcription rules")
+    return ALT_BEST_SIG + "{\n" + b + "\n}\n"
+
+
+def alt_best_unit(text):
+    return vlib.verus_file([ALT_BEST_MODEL, alt_best_fn(text), vlib.verus_canary("canary_alt_best", "x: u64", [])])
